@@ -478,3 +478,12 @@ package keeper
 //@   ensures[C01.nst.deposit] err == nil ==> stDeposit(ctx, stakerID, assetID) == old(stDeposit(ctx, stakerID, assetID)) - nstTaken(pendingSlashAmount, old(undelegation.ActualCompletedAmount))
 //@   ensures[C01.nst.left]   err == nil ==> val(final_pendingSlashAmount) == val(pendingSlashAmount) - old(val(undelegation.ActualCompletedAmount))
 //@   ensures[C01.nst.stop]   err == nil ==> (r0 <==> val(final_pendingSlashAmount) <= 0)
+
+// ---------------------------------------------------------------------------------------------
+// C03 (no record is ever lost): the two indexes must identify the record they point at - two different records must
+// never share a pending-index key (completion height, nonce) or a staker-index key (staker, asset, nonce); otherwise
+// the later one overwrites the index entry of the earlier one, which is then never found at its completion height.
+//@ lemma[C03.L.pendidx] pending_index_identifies_record(h1 Int, n1 Int, b1 Int, op1 Bytes, tx1 Bytes, h2 Int, n2 Int, b2 Int, op2 Bytes, tx2 Bytes)
+//@   hyp  h1 >= 0 && h2 >= 0 && n1 >= 0 && n2 >= 0 && b1 >= 0 && b2 >= 0
+//@   hyp  pendIdxKey(h1, n1) == pendIdxKey(h2, n2)
+//@   goal urKey(op1, b1, n1, tx1) == urKey(op2, b2, n2, tx2)
